@@ -10,7 +10,9 @@ LEVEL_TEXT["C13"] = (
     "finding C13:complex-welch-axis in general form, plus the concrete witness (nfft 8, tone at +0.25 peaks at the entry labelled -1/8); "
     "mscohere in [0,1] by Cauchy-Schwarz over the segments for EVERY transform, and = 1 for y = s x, s != 0, wherever the spectrum of x is not zero. "
     "All clauses that use the transform take 'fft(seg, nfft) is the nfft-point DFT of the zero-padded segment' as explicit hypothesis (property C01; "
-    "bridging lemmas isDftR_of_pad / isDftC_of_pad accept C01's statement shape). Tie: correspondence of the hand-written model with the library, "
+    "bridging lemmas isDftR_of_pad / isDftC_of_pad accept C01's statement shape). "
+    "UNCONDITIONAL (Props/C13Total): every clause above is restated for the library's own fft(x, n) models (fftRN / fftCN, C01) for every accepted nfft < 2^31 -- welchR/C_size_total, _nonneg_total, _power_total, welchC_tone_value/peak/max_total, welchR_cos_tone_total, welchR_labels_total, mscohere_range_total, mscohere_scaled_copy_total; welchC_axis_witness_total is the formal counterpart of the known finding C13:complex-welch-axis. "
+    "Tie: correspondence of the hand-written model with the library, "
     "bit for bit on every case so far (tolerance 1e-12 / 1e-9 of the line maximum), including the guard and boundary classes outside the property's domain. "
     "Measured only: rounding (long-double time-domain power vs. the returned sum, a-priori bound (nseg + winlen + 16 log2 nfft + 16) eps), the real "
     "bin-centred sinusoid (A^2/2 up to the negative-frequency image 2r + r^2, r = |S(2k0)|/S(0) computed from the window), off-bin tones "
